@@ -55,6 +55,14 @@ Theorem C12_vtt_split_by_layout : forall ls, forallb layout_truthy ls = true ->
 Proof. exact vtt_split_by_layout. Qed.
 Print Assumptions C12_vtt_split_by_layout.
 
+(* the same on arbitrary node lists: BREAK nodes, styled and empty STYLE nodes anywhere between and around the text nodes
+   (the shape of every generated multi-line caption); hypothesis: every text node carries a layout, at least one text *)
+Theorem C12_vtt_split_by_layout_general : forall nodes, texts_have_layouts nodes -> text_layouts nodes <> [] ->
+  vtt_groups nodes = map Some (runs_last (text_layouts nodes)).
+Proof. exact vtt_split_by_layout_general. Qed.
+Print Assumptions C12_vtt_split_by_layout_general.
+
+(* facts about the spec functions runs_last / runs_members (what "one cue per maximal run" means): *)
 Theorem C12_vtt_cues_adjacent_distinct : forall ls, adj_distinct (runs_last ls).
 Proof. exact runs_last_adjacent_distinct. Qed.
 Print Assumptions C12_vtt_cues_adjacent_distinct.
@@ -141,7 +149,7 @@ Print Assumptions C12_resolve_written_region.
    the model of the reader (region resolution, tree walk) gives the language, every caption and EVERY WORD the
    statement's expected effective layout: node > caption > language, two-decimal values, defaults start / after *)
 Theorem C12_dfxp_layout_roundtrip : forall langs, Forall opt_nonneg (set_layouts (map to_dlang langs)) ->
-  exists obs, dfxp_roundtrip (map to_dlang langs) = Ok obs /\ Forall2 lang_rel obs langs.
+  exists obs, dfxp_roundtrip None (map to_dlang langs) = Ok obs /\ Forall2 lang_rel obs langs.
 Proof. exact dfxp_layout_roundtrip. Qed.
 Print Assumptions C12_dfxp_layout_roundtrip.
 
@@ -182,7 +190,7 @@ Example C12_ex_tree :
   let lang := mkLayout (Some (mkPoint (s (10 # 1)) (s (10 # 1)))) None None None None in
   let cap := mkLayout (Some (mkPoint (s (20 # 1)) (s (60 # 1)))) None None None None in
   (* <div region=r0><p region=r1>1 <span italic>2</span></p></div>: word 2 (span without region) gets the caption's layout *)
-  match dfxp_roundtrip [to_dlang (mkGlang (Some lang) [mkGcap (Some cap) [GPlain (GWord 1); GSpan true None [GWord 2]]])] with
+  match dfxp_roundtrip None [to_dlang (mkGlang (Some lang) [mkGcap (Some cap) [GPlain (GWord 1); GSpan true None [GWord 2]]])] with
   | Ok [rl] => match rl_caps rl with
                | [rc] => map (fun wl => (fst wl, l_origin (snd wl))) (rc_words rc)
                          = [(1, Some (mkPoint (s (20 # 1)) (s (60 # 1)))); (2, Some (mkPoint (s (20 # 1)) (s (60 # 1))))]
@@ -195,11 +203,11 @@ Proof. vm_compute. reflexivity. Qed.
 Example C12_ex_default_span :
   let s v := mkSize v PCT in
   let cap := mkLayout (Some (mkPoint (s (20 # 1)) (s (60 # 1)))) None None (Some (mkAlign (Some HCenter) (Some VTop))) None in
-  match write_doc [to_dlang (mkGlang None [mkGcap (Some cap) [GPlain (GWord 1); GSpan true (Some dfxp_default_region) [GWord 2]]])] with
+  match write_doc None [to_dlang (mkGlang None [mkGcap (Some cap) [GPlain (GWord 1); GSpan true (Some dfxp_default_region) [GWord 2]]])] with
   | mkXdoc _ [mkXdiv _ [mkXp (Some (RId 0)) [XText 1; XSpan (Some RDefault) [XText 2]]]] => True
   | _ => False
   end
-  /\ match dfxp_roundtrip [to_dlang (mkGlang None [mkGcap (Some cap) [GPlain (GWord 1); GSpan true (Some dfxp_default_region) [GWord 2]]])] with
+  /\ match dfxp_roundtrip None [to_dlang (mkGlang None [mkGcap (Some cap) [GPlain (GWord 1); GSpan true (Some dfxp_default_region) [GWord 2]]])] with
      | Ok [rl] => match rl_caps rl with
                   | [rc] => map (fun wl => (fst wl, l_origin (snd wl), l_alignment (snd wl))) (rc_words rc)
                             = [(1, Some (mkPoint (s (20 # 1)) (s (60 # 1))), Some (mkAlign (Some HCenter) (Some VTop)));
@@ -208,3 +216,29 @@ Example C12_ex_default_span :
      | _ => False
      end.
 Proof. split; vm_compute; [exact I|reflexivity]. Qed.
+
+(* an instance of C12_vtt_split_by_layout_general with BREAK and STYLE nodes between the texts *)
+Example C12_ex_split_general :
+  let l v := mkLayout (Some (mkPoint (mkSize v PCT) (mkSize v PCT))) None None None None in
+  let nodes := [mkNode 2 None; mkNode 1 (Some (l (1 # 1))); mkNode 2 None; mkNode 3 None; mkNode 1 (Some (l (2 # 2)));
+                mkNode 3 (Some (l (9 # 1))); mkNode 4 None; mkNode 1 (Some (l (5 # 1)))] in
+  text_layouts nodes = [l (1 # 1); l (2 # 2); l (5 # 1)]
+  /\ vtt_groups nodes = [Some (l (2 # 2)); Some (l (5 # 1))]
+  /\ runs_last (text_layouts nodes) = [l (2 # 2); l (5 # 1)].
+Proof. vm_compute. repeat split. Qed.
+(* a caption of styled STYLE nodes only still gives one cue (the tags make the cue text non-empty) *)
+Example C12_ex_style_only : vtt_groups [mkNode 2 None; mkNode 2 None] = [None] /\ vtt_groups [mkNode 4 None; mkNode 4 None] = [].
+Proof. split; reflexivity. Qed.
+(* set-level layout: found only when an equal layout has a region *)
+Example C12_ex_set_level :
+  let s v := mkSize v PCT in
+  let g := mkLayout (Some (mkPoint (s (40 # 1)) (s (40 # 1)))) None None None None in
+  let en := mkDlang None [mkDcap None [mkD 1 false false None 0]] in
+  let fr := mkDlang None [mkDcap (Some g) [mkD 1 false false None 1]] in
+  match dfxp_roundtrip (Some g) [en], dfxp_roundtrip (Some g) [en; fr] with
+  | Ok [a], Ok [b; _] =>
+      map (fun c => map (fun wl => l_origin (snd wl)) (rc_words c)) (rl_caps a) = [[None]]
+      /\ map (fun c => map (fun wl => l_origin (snd wl)) (rc_words c)) (rl_caps b) = [[Some (mkPoint (s (40 # 1)) (s (40 # 1)))]]
+  | _, _ => False
+  end.
+Proof. vm_compute. split; reflexivity. Qed.
